@@ -52,7 +52,18 @@ Proof. exact (band_mv_correct O). Qed.
 Theorem C15_symmetric_matrix_vector_partial : forall (row_lower_col_upper : bool) (n : Z) (mem : Z -> T) (left_ptr left_offset x0 incx i : Z),
   adept_symm_mv O row_lower_col_upper n mem left_ptr left_offset x0 incx i = symm_mv_spec O row_lower_col_upper n mem left_ptr left_offset x0 incx i.
 Proof. exact (symm_mv_correct O). Qed.
+(* symmetric matrix (either orientation) x matrix (row- or column-contiguous) through ?symm: cell (i,j) is the defining sum and
+   is stored at (i,j) of the answer in the answer's own order; settles the "FIX! CHECK ROW MAJOR VERSION IS RIGHT" of
+   cppblas.cpp (it is right) *)
+Theorem C15_symmetric_matrix_matrix_partial : forall (row_lower right_row : bool) (M N : Z) (mem : Z -> T) (left_ptr left_offset b0 rs i j : Z),
+  adept_symm_mm O row_lower right_row M N mem left_ptr left_offset b0 rs i j = symm_mm_spec O row_lower right_row M mem left_ptr left_offset b0 rs i j.
+Proof. exact (symm_mm_correct O Rth). Qed.
+Theorem C15_symmetric_result_placement : forall (right_row : bool) (c0 cs i j : Z),
+  cppblas_symm_addr right_row c0 cs i j = if right_row then c0 + i * cs + j else c0 + i + j * cs.
+Proof. exact symm_mm_addr. Qed.
 End AnyRing.
+Print Assumptions C15_symmetric_matrix_matrix_partial.
+Print Assumptions C15_symmetric_result_placement.
 Print Assumptions C15_symmetric_matrix_vector_partial.
 Print Assumptions C15_band_matrix_vector_partial.
 Print Assumptions C15_dense_matrix_matrix_partial.
